@@ -65,3 +65,28 @@ def kernel_witness(lab, model, diffterm):
     if lab.U is not None:
         uv = model.eval(lab.U, model_completion=True).as_long(); valid = bool((uv >> col) & 1)
     return {'colour': col, 'T': T, 'sets': sets, 'colour_valid': valid, 'state': M.state_of(idx)}
+
+def multi_colour_job(n, colours, texts, k, entry):
+    """native job on a network with 2^c colours distinguished by zero-arity parameters g0..g{c-1}.
+    colours: list (index = colour) of {'T': {(i,s): bool}, 'sets': {label: set(states)}}"""
+    names = [f'v{i}' for i in range(n)]
+    c = (len(colours) - 1).bit_length()
+    def guard(col): return ' & '.join((f'g{b}' if (col >> b) & 1 else f'!g{b}') for b in range(c)) or 'true'
+    lines = []
+    for i in range(n):
+        for j in range(n): lines.append(f'{names[j]} -?? {names[i]}')
+        parts = []
+        for col, cw in enumerate(colours):
+            ones = [s for s in range(1 << n) if bool((s >> i) & 1) != bool(cw['T'][(i, s)])]
+            parts.append(f'(({guard(col)}) & ({dnf(names, ones, n)}))' if c else f'({dnf(names, ones, n)})')
+        lines.append(f'${names[i]}: ' + ' | '.join(parts))
+    labels = sorted(set().union(*[set(cw['sets']) for cw in colours])) if colours else []
+    context = {}
+    for l in labels:
+        alts = []
+        for col, cw in enumerate(colours):
+            st = {'t': 'expr', 'e': dnf(names, cw['sets'].get(l, set()), n)}
+            gs = [{'t': 'param', 'name': f'g{b}'} if (col >> b) & 1 else {'t': 'not', 'a': {'t': 'param', 'name': f'g{b}'}} for b in range(c)]
+            alts.append({'t': 'and', 'a': [st] + gs})
+        context[l] = {'t': 'or', 'a': alts}
+    return {'op': 'mc', 'aeon': '\n'.join(lines) + '\n', 'k': k, 'context': context, 'runs': [{'entry': entry, 'formulas': list(texts)}]}
